@@ -3,7 +3,9 @@
 Decides: (once) every Iterable parameter of the ordered-set API is consumed at
 most once per path unless materialised first; (neg) __getitem__ can return for
 a negative index; (order) the backing dict and derived sets are built only from
-order-preserving constructions.  Element equality/hash semantics are not decided.
+order-preserving constructions; (laws) the classes, interpreted from source, agree with the
+insertion-ordered-set semantics for every operation and every kind of operand, observed through
+iteration, len, membership, indexing and reversed().  Hash/eq of exotic elements is not decided.
 """
 
 from __future__ import annotations
@@ -29,8 +31,216 @@ def _iterable_params(fn):
     return out
 
 
+BASE = [3, 1, 2]
+UNIVERSE = range(0, 10)
+
+
+def _laws(ctx, repo) -> None:
+    """Interpret the ordered-set classes from source and compare every operation, for every kind of
+    operand, with the insertion-ordered-set semantics computed here on plain lists."""
+    from sa.engine import peval
+
+    mod = repo.module(MOD)
+    cres = peval.repo_class_resolver(repo)
+
+    def fresh():
+        return peval.Interp(resolver=peval.repo_resolver(repo), class_resolver=cres, max_steps=400000)
+
+    def mk(it, cname, items):
+        return it.instantiate(cname, cres(cname, mod), [list(items)], {})
+
+    # operand kinds: (label, factory(it, cname, self_obj) -> operand, its elements in iteration order)
+    def kinds(it, cname, self_obj):
+        return [
+            ("a list with duplicates", [2, 5, 5, 3, 2], [2, 5, 5, 3, 2]),
+            ("a tuple", (7, 1), [7, 1]),
+            ("a one-shot generator", (x for x in [2, 6, 6]), [2, 6, 6]),
+            ("a one-shot iterator", iter([9, 3, 9]), [9, 3, 9]),
+            ("a builtin set", {2, 8}, [2, 8]),
+            ("dict keys", {1: "a", 4: "b"}.keys(), [1, 4]),
+            ("an ordered set", mk(it, cname, [5, 2, 4]), [5, 2, 4]),
+            ("the set itself", self_obj, list(BASE)),
+            ("an empty list", [], []),
+        ]
+
+    def dedup(xs):
+        return list(dict.fromkeys(xs))
+
+    def o_union(base, *others):
+        return dedup([*base, *[x for o in others for x in o]])
+
+    def o_inter(base, *others):
+        return [x for x in base if all(x in o for o in others)]
+
+    def o_diff(base, *others):
+        return [x for x in base if not any(x in o for o in others)]
+
+    def o_sym(base, other):
+        return [x for x in base if x not in other] + [x for x in dedup(other) if x not in base]
+
+    def observe(obj):
+        """Everything the sequence / set protocol shows of the object."""
+        items = list(obj)
+        n = len(items)
+        out = {"iter": items, "len": len(obj), "in": [u for u in UNIVERSE if u in obj], "index": [], "reversed": list(reversed(obj))}
+        for i in range(-n, n):
+            out["index"].append(obj[i])
+        for bad in (n, -n - 1):
+            try:
+                obj[bad]
+                out["index"].append(("no IndexError", bad))
+            except IndexError:
+                pass
+        return out
+
+    def expected(items):
+        n = len(items)
+        return {"iter": items, "len": n, "in": [u for u in UNIVERSE if u in items], "index": [items[i] for i in range(-n, n)], "reversed": items[::-1]}
+
+    pure_ops = [("union", o_union, 1), ("__or__", o_union, 1), ("intersection", o_inter, 1), ("__and__", o_inter, 1), ("difference", o_diff, 1), ("symmetric_difference", o_sym, 1), ("__xor__", o_sym, 1)]
+    pred_ops = [("issubset", lambda base, o: all(x in o for x in base)), ("issuperset", lambda base, o: all(x in base for x in o))]
+    inplace_ops = [("update", o_union), ("difference_update", o_diff), ("intersection_update", o_inter), ("symmetric_difference_update", o_sym)]
+
+    def run(cname, opname, label, body):
+        tag = f"[{cname}.{opname}] {label}"
+        fn = repo.methods(repo.cls(MOD, cname)).get(opname)
+        try:
+            problem = body()
+        except peval.Undecided as exc:
+            ctx.undecide("C34.laws", fn or repo.cls(MOD, cname), f"{tag}: {exc}")
+            return
+        except peval.Raises as exc:
+            problem = f"raises {exc.name} ({exc.detail[:60]})"
+        except RuntimeError as exc:  # e.g. dictionary changed size during iteration
+            problem = f"raises RuntimeError ({str(exc)[:60]})"
+        except RecursionError:
+            problem = "does not terminate (recursion)"
+        except (IndexError, KeyError, TypeError, ValueError, AttributeError, StopIteration) as exc:  # raised by the interpreted methods through python's protocols
+            problem = f"raises {type(exc).__name__} ({str(exc)[:60]})"
+        ctx.check("C34.laws", fn or repo.cls(MOD, cname), problem is None, f"{tag}: {problem}: an ordered set must hold what a mathematical set would, in first-insertion order, through iteration, len, membership, indexing (negative indices too) and reversed()", what=tag, stmt=tag)
+
+    for cname in ("OrderedSet", "FrozenOrderedSet"):
+        cdef = repo.cls(MOD, cname)
+        methods = repo.methods(cdef)
+        n_kinds = len(kinds(fresh(), cname, None))
+        for k in range(n_kinds):
+            for opname, oracle, _ in pure_ops:
+                if opname not in methods:
+                    continue
+
+                def body(opname=opname, oracle=oracle, k=k):
+                    it = fresh()
+                    s = mk(it, cname, BASE)
+                    label, operand, elems = kinds(it, cname, s)[k]
+                    res = s.methods[opname](operand)
+                    want = oracle(BASE, elems)
+                    got = observe(res)
+                    if got != expected(want):
+                        return f"yields {got}, expected {expected(want)}"
+                    if observe(s) != expected(BASE):
+                        return f"changes the receiver to {list(s)}"
+                    if getattr(res, "label", None) != cname:
+                        return f"returns a {getattr(res, 'label', type(res).__name__)}"
+                    return None
+
+                run(cname, opname, kinds(fresh(), cname, None)[k][0], body)
+            for opname, oracle in pred_ops:
+                def body(opname=opname, oracle=oracle, k=k):
+                    it = fresh()
+                    s = mk(it, cname, BASE)
+                    label, operand, elems = kinds(it, cname, s)[k]
+                    got = s.methods[opname](operand)
+                    want = oracle(BASE, elems)
+                    return None if got is want else f"answers {got!r}, a set would answer {want!r}"
+
+                run(cname, opname, kinds(fresh(), cname, None)[k][0], body)
+                # the same with a receiver that is a subset / superset of the operand
+                def body2(opname=opname, oracle=oracle, k=k):
+                    it = fresh()
+                    label, operand, elems = kinds(it, cname, mk(it, cname, BASE))[k]
+                    recv_items = dedup(elems)[:1] if opname == "issubset" else dedup([*elems, 0])
+                    s = mk(it, cname, recv_items)
+                    if label == "the set itself":
+                        operand, elems = s, recv_items
+                    got = s.methods[opname](operand)
+                    want = oracle(recv_items, elems)
+                    return None if got is want else f"on {recv_items} answers {got!r}, a set would answer {want!r}"
+
+                run(cname, opname, kinds(fresh(), cname, None)[k][0] + " (related receiver)", body2)
+            if cname == "OrderedSet":
+                for opname, oracle in inplace_ops:
+                    def body(opname=opname, oracle=oracle, k=k):
+                        it = fresh()
+                        s = mk(it, cname, BASE)
+                        s[0], s[-1]  # reads before the change must not be remembered
+                        label, operand, elems = kinds(it, cname, s)[k]
+                        other_before = list(operand) if label == "an ordered set" else None
+                        s.methods[opname](operand)
+                        want = oracle(BASE, elems)
+                        got = observe(s)
+                        if got != expected(want):
+                            return f"leaves {got}, expected {expected(want)}"
+                        if other_before is not None and list(operand) != other_before:
+                            return f"changes its operand to {list(operand)}"
+                        return None
+
+                    run(cname, opname, kinds(fresh(), cname, None)[k][0], body)
+        # several operands at once
+        for opname, oracle in (("union", o_union), ("intersection", o_inter), ("difference", o_diff)):
+            def body(opname=opname, oracle=oracle):
+                it = fresh()
+                s = mk(it, cname, BASE)
+                res = s.methods[opname]((x for x in [2, 3, 7]), [3, 8, 2], s)
+                want = oracle(BASE, [2, 3, 7], [3, 8, 2], BASE)
+                return None if observe(res) == expected(want) else f"yields {observe(res)}, expected {expected(want)}"
+
+            run(cname, opname, "three operands (generator, list, itself)", body)
+        if cname == "OrderedSet":
+            def body():
+                it = fresh()
+                s = mk(it, cname, BASE)
+                s.methods["difference_update"]((x for x in [3]), s.methods["intersection"]([2]), [])
+                return None if observe(s) == expected([1]) else f"leaves {observe(s)}, expected {expected([1])}"
+
+            run(cname, "difference_update", "three operands", body)
+
+            def body():
+                it = fresh()
+                s = mk(it, cname, BASE)
+                s[1]
+                s.methods["discard"](1)
+                s.methods["add"](7)
+                s.methods["add"](3)
+                s.methods["discard"](42)
+                if observe(s) != expected([3, 2, 7]):
+                    return f"after discard(1), add(7), add(3), discard(42): {observe(s)}, expected {expected([3, 2, 7])}"
+                s.methods["clear"]()
+                return None if observe(s) == expected([]) else f"after clear(): {observe(s)}"
+
+            run(cname, "add", "add / discard / clear between index reads", body)
+        else:
+            def body():
+                it = fresh()
+                a, b, c = mk(it, cname, [1, 2]), mk(it, cname, [1, 2]), mk(it, cname, [2, 1])
+                if not (a == b) or hash(a) != hash(b):
+                    return "equal frozen sets are unequal or hash differently"
+                if a == c:
+                    return "frozen sets with different order compare equal although iteration order is part of the value"
+                return None
+
+            run(cname, "__hash__", "equal sets hash alike", body)
+        def body():
+            it = fresh()
+            a, b = mk(it, cname, [1, 2]), mk(it, cname, [1, 2, 3])
+            return None if (a == mk(it, cname, [1, 2])) and not (a == b) and not (b == a) else "__eq__ disagrees with element-wise comparison"
+
+        run(cname, "__eq__", "equality", body)
+
+
 def check(ctx) -> None:
     repo = ctx.repo
+    ctx.rule("C34.laws", "ABSINT: OrderedSet and FrozenOrderedSet, interpreted from source, agree with the insertion-ordered-set semantics for every operation x operand kind (list with duplicates, tuple, one-shot generator / iterator, builtin set, dict keys, ordered set, the set itself, empty; several operands) through iteration, len, membership, positive and negative indexing and reversed(), before and after in-place changes", floor=110)
+    _laws(ctx, repo)
     ctx.rule("C34.once", "ONCE: an Iterable parameter is consumed at most once on every path unless it was materialised (set/tuple/dict.fromkeys/cls) or proven re-iterable (isinstance Collection)", floor=20)
     ctx.rule("C34.neg", "__getitem__ normalises negative indices (or subscripts a materialised sequence) before the position comparison", floor=1)
     ctx.rule("C34.order", "the backing dict `_items` and every derived ordered set are built from order-preserving constructions (dict.fromkeys / comprehension over an ordered source), never from a builtin set", floor=6)
